@@ -22,6 +22,28 @@ def table(job):
     return out
 
 
+def table_seq(job):
+    """one process, the affinity mask and LOKY_MAX_CPU_COUNT change while it runs: every step is evaluated like a table() call"""
+    import joblib
+    from joblib import parallel_config, effective_n_jobs, Parallel
+    outs = []
+    for st in job["steps"]:
+        os.sched_setaffinity(0, set(range(st["aff"])))
+        if st["env"]: os.environ["LOKY_MAX_CPU_COUNT"] = str(st["env"])
+        else: os.environ.pop("LOKY_MAX_CPU_COUNT", None)
+        out = {"cpu_count": joblib.cpu_count(), "rows": []}
+        for backend, n in st["rows"]:
+            try:
+                with parallel_config(backend=backend):
+                    e1 = effective_n_jobs(n)
+                e2 = Parallel(n_jobs=n, backend=backend)._effective_n_jobs()
+                out["rows"].append(["ok", e1, e2])
+            except ValueError:
+                out["rows"].append(["ValueError", 0, 0])
+        outs.append(out)
+    return {"steps": outs}
+
+
 def gated_task(d, i):
     open(os.path.join(d, "start_%d_%d_%d" % (i, os.getpid(), threading.get_ident())), "w").close()
     t0 = time.time()
@@ -86,5 +108,5 @@ def nest(job):
 
 if __name__ == "__main__":
     job = json.load(open(sys.argv[1]))
-    r = {"table": table, "gate": gate, "nest": nest}[job["mode"]](job)
+    r = {"table": table, "table_seq": table_seq, "gate": gate, "nest": nest}[job["mode"]](job)
     json.dump(r, open(sys.argv[1] + ".out", "w"))
